@@ -52,19 +52,20 @@ def _jax():
 
 
 # ------------------------------------------------------------------------------------------------ pytrees
-def _build_tree(shape, flat):
+def _build_tree(shape, flat, dtype=float):
     """shape: nested structure of ints (leaf sizes) / [a,b] 2-D leaf shapes in dicts/lists -> pytree of arrays"""
     jnp = _jax()["jnp"]
     pos = [0]
+    float_ = dtype
 
     def rec(s):
         if isinstance(s, int):
-            a = jnp.array(flat[pos[0]:pos[0] + s], dtype=float)
+            a = jnp.array(flat[pos[0]:pos[0] + s], dtype=float_)
             pos[0] += s
             return a
         if isinstance(s, dict) and "shape" in s:
             k = int(np.prod(s["shape"]))
-            a = jnp.array(flat[pos[0]:pos[0] + k], dtype=float).reshape(s["shape"])
+            a = jnp.array(flat[pos[0]:pos[0] + k], dtype=float_).reshape(s["shape"])
             pos[0] += k
             return a
         if isinstance(s, dict):
@@ -132,22 +133,50 @@ def _cfg_kwargs(case):
 def _system(case):
     J = _jax()
     jnp, jft = J["jnp"], J["jft"]
+    cp = case.get("cplx")
+    dt = complex if cp else float
     H = jnp.array(np.array(case["mat"], dtype=float))
+    jvals, x0vals = list(case["j"]), (None if case.get("x0") is None else list(case["x0"]))
+    if cp:
+        H = H + 1j * jnp.array(np.array(cp["mat_im"], dtype=float))
+        jvals = [a + 1j * b for a, b in zip(jvals, cp["j_im"])]
+        if x0vals is not None:
+            x0vals = [a + 1j * b for a, b in zip(x0vals, cp["x0_im"])]
     shape = case["shape"]
-    jt = _build_tree(shape, case["j"])
+    jt = _build_tree(shape, jvals, dt)
     wrap = case.get("vector", True)
     unflat = lambda f: _build_tree_from_array(shape, f)
     if wrap:
         jv = jft.Vector(jt)
         mat = lambda v: jft.Vector(unflat(H @ _flatten(v.tree)))
-        x0 = None if case.get("x0") is None else jft.Vector(_build_tree(shape, case["x0"]))
-        flat = lambda v: np.array(_flatten(v.tree))
+        x0 = None if x0vals is None else jft.Vector(_build_tree(shape, x0vals, dt))
+        flat = lambda v: _reim(np.array(_flatten(v.tree)), cp)
     else:
         jv = jt
         mat = lambda v: unflat(H @ _flatten(v))
-        x0 = None if case.get("x0") is None else _build_tree(shape, case["x0"])
-        flat = lambda v: np.array(_flatten(v))
+        x0 = None if x0vals is None else _build_tree(shape, x0vals, dt)
+        flat = lambda v: _reim(np.array(_flatten(v)), cp)
     return mat, jv, x0, flat
+
+
+def _reim(a, cp):
+    """complex vectors are reported as (real parts, imaginary parts): the real vector space of doubled dimension"""
+    return np.concatenate([a.real, a.imag]) if cp else a
+
+
+def _realified(case):
+    """(H, j, x0) of the equivalent real system: complex Hermitian n x n  ->  real symmetric 2n x 2n"""
+    H = np.array(case["mat"], dtype=object)
+    j = list(case["j"])
+    x0 = None if case.get("x0") is None else list(case["x0"])
+    cp = case.get("cplx")
+    if not cp:
+        return [list(r) for r in case["mat"]], j, x0
+    A, B = np.array(case["mat"]), np.array(cp["mat_im"])
+    H2 = np.block([[A, -B], [B, A]])
+    j2 = j + list(cp["j_im"])
+    x02 = None if x0 is None else x0 + list(cp["x0_im"])
+    return [[int(v) for v in r] for r in H2], j2, x02
 
 
 def _build_tree_from_array(shape, f):
@@ -208,8 +237,9 @@ def _run_real_(case, variant, kw=None, public=False):
 # ------------------------------------------------------------------------------------------------ model
 def _model_line(case, scale=None):
     fin = np.finfo(np.float64)
-    d = {"op": "cg", "mat": [[rs(v) for v in row] for row in case["mat"]], "j": [rs(v) for v in case["j"]],
-         "x0": None if case.get("x0") is None else [rs(v) for v in case["x0"]],
+    H2, j2, x02 = _realified(case)
+    d = {"op": "cg", "mat": [[rs(v) for v in row] for row in H2], "j": [rs(v) for v in j2],
+         "x0": None if x02 is None else [rs(v) for v in x02], "size": len(case["j"]),
          "tol": case["tol"], "atol": case["atol"], "raise": bool(case["raise"]),
          "tiny": rs(6.0 * float(fin.tiny)), "eps": rs(6.0 * float(fin.eps)), "nreset": int(case.get("nreset", 20))}
     for k in ("absdelta", "resnorm", "miniter", "maxiter"):
@@ -247,9 +277,10 @@ def _mk_sig(kind, **kw):
 
 def oracle(case):
     """the property on the REAL code only"""
-    H = np.array(case["mat"], dtype=float)
-    j = np.array(case["j"], dtype=float)
-    x0 = np.zeros_like(j) if case.get("x0") is None else np.array(case["x0"], dtype=float)
+    H2_, j2_, x02_ = _realified(case)
+    H = np.array(H2_, dtype=float)
+    j = np.array(j2_, dtype=float)
+    x0 = np.zeros_like(j) if x02_ is None else np.array(x02_, dtype=float)
     kw = _cfg_kwargs(case)
     re = _run_real(case, "eager")
     rs_ = _run_real(case, "static")
@@ -457,9 +488,20 @@ def _gen_case(rng, quick):
         case["raise"] = rng.random() < 0.35
     if rng.random() < 0.45:
         case["nreset"] = rng.randint(1, 4)     # exercise the residual-reset branch (N_RESET patched in-process)
+    if kind in ("spd", "indef", "negdef") and rng.random() < 0.25:
+        # complex Hermitian system: imaginary part antisymmetric, small enough to keep the definiteness class
+        B = [[0] * n for _ in range(n)]
+        for a in range(n):
+            for b in range(a + 1, n):
+                if rng.random() < 0.5:
+                    B[a][b] = rng.choice([-1, 1])
+                    B[b][a] = -B[a][b]
+        case["cplx"] = {"mat_im": B, "j_im": [rng.randint(-3, 3) for _ in range(n)],
+                        "x0_im": None if x0 is None else [rng.randint(-2, 2) for _ in range(n)]}
     if isinstance(case["shape"], int) and rng.random() < 0.5:
         case["vector"] = False           # plain arrays; bare pytrees of arrays do not support arithmetic
-    norms, ediffs = _ref_traj(H, j, x0, max(1, n - 2))
+    H_, j_, x0_ = _realified(case)
+    norms, ediffs = _ref_traj(H_, j_, x0_, max(1, n - 2))
     # stopping configuration: thresholds between consecutive trajectory values
     mode = rng.choice(["resnorm", "absdelta", "both", "tol", "atol", "default"])
     k = rng.randrange(len(norms)) if norms else 0
@@ -470,7 +512,7 @@ def _gen_case(rng, quick):
         k2 = k if mode == "absdelta" else rng.randrange(len(ediffs))
         lo, hi = ediffs[k2], (ediffs[k2 - 1] if k2 > 0 else ediffs[k2] * 4)
         case["absdelta"] = rs(math.sqrt(lo * hi)) if lo > 0 and hi > 0 else rs(1e-3)
-    jn = math.sqrt(sum(v * v for v in j)) or 1.0
+    jn = math.sqrt(sum(v * v for v in j_)) or 1.0
     if norms and mode == "tol":
         lo, hi = norms[k], (norms[k - 1] if k > 0 else norms[k] * 4)
         case["tol"] = rs(math.sqrt(lo * hi) / jn) if lo > 0 else rs(1e-3)
@@ -509,6 +551,12 @@ def _nontrivial(case):
 
 def shrink(case):
     n = len(case["j"])
+    if case.get("cplx"):
+        yield dict(case, cplx=None)
+        for k in ("miniter", "maxiter", "absdelta", "resnorm"):
+            if case.get(k) is not None:
+                yield dict(case, **{k: None})
+        return
     if case.get("shape") != n:
         yield dict(case, shape=n, vector=False)
     for k in ("miniter", "maxiter", "absdelta", "resnorm"):
@@ -556,6 +604,7 @@ def _check_cases(ctx, cases):
         ctx.stat("kind=" + c.get("kind", "?"))
         ctx.stat("n=%d" % len(c["j"]))
         ctx.stat("nreset=%s" % c.get("nreset", 20))
+        ctx.stat("complex" if c.get("cplx") else "real")
         if "error" in m and "eager" not in m:
             ctx.disagree(c, None, m, "model driver rejected the case")
             continue
